@@ -192,7 +192,10 @@ namespace nmtools::meta
                 // a clipped shape bounds the source only: the number of indices may exceed the bound at axis
                 if constexpr (is_bounded_array_v<shape_t> || is_constant_index_array_v<shape_t> || is_clipped_index_array_v<shape_t>) {
                     constexpr auto N = len_v<shape_t>;
-                    using type = nmtools_array<index_t,N>;
+                    // the extents are those of the source shape (and the number of indices): their type must not be
+                    // taken from the ENTRIES of indices (clipped entries would clamp the extents to the index bounds)
+                    using element_t = conditional_t<is_clipped_integer_v<index_t>,get_index_element_type_t<indices_t>,index_t>;
+                    using type = nmtools_array<element_t,N>;
                     return as_value_v<type>;
                 } else {
                     // when slicing at given axis, the resulting shape type follow original shape
